@@ -10,6 +10,7 @@ Section NodeInd.
   Hypothesis Hsess : forall l body, Forall P body -> P (NSess l body).
   Hypothesis Hwith : forall c body, Forall P body -> P (NWith c body).
   Hypothesis Hbegin : forall l f body, Forall P body -> P (NBegin l f body).
+  Hypothesis HbeginW : forall l f g body, Forall P body -> P (NBeginW l f g body).
   Fixpoint node_ind' (n : node) : P n :=
     match n with
     | NCall k f => Hcall k f
@@ -19,6 +20,8 @@ Section NodeInd.
     | NWith c body => Hwith c body ((fix go (ns : list node) : Forall P ns :=
                          match ns with [] => Forall_nil P | x :: r => Forall_cons x (node_ind' x) (go r) end) body)
     | NBegin l f body => Hbegin l f body ((fix go (ns : list node) : Forall P ns :=
+                         match ns with [] => Forall_nil P | x :: r => Forall_cons x (node_ind' x) (go r) end) body)
+    | NBeginW l f g body => HbeginW l f g body ((fix go (ns : list node) : Forall P ns :=
                          match ns with [] => Forall_nil P | x :: r => Forall_cons x (node_ind' x) (go r) end) body)
     end.
 End NodeInd.
@@ -62,7 +65,7 @@ Proof. induction 1; cbn; congruence. Qed.
 Theorem run_expected : forall cp n h, copies_ok cp = true -> node_ok n = true ->
   run cp n h = expected n (h_ctx h).
 Proof.
-  intros cp n. induction n as [k f | f inner | l body IH | c body IH | l f body IH] using node_ind'; intros h C OK.
+  intros cp n. induction n as [k f | f inner | l body IH | c body IH | l f body IH | l f g body IH] using node_ind'; intros h C OK.
   - cbn in *. unfold site_passes_stmt_ctx in OK. destruct f; try discriminate.
     unfold arg_ctx. cbn. rewrite get_instance_ctx by exact C. reflexivity.
   - cbn in *. apply andb_prop in OK. destruct OK as [O1 O2].
@@ -91,13 +94,24 @@ Proof.
     rewrite Forall_forall in *. intros x Hin. rewrite IH; try assumption.
     + rewrite HC. reflexivity.
     + rewrite forallb_forall in B. apply B. exact Hin.
+  - cbn [run expected node_ok] in *. apply andb_prop in OK. destruct OK as [K B]. apply andb_prop in K. destruct K as [K G].
+    apply andb_prop in K. destruct K as [K S].
+    unfold site_passes_stmt_ctx in S. destruct f; try discriminate.
+    unfold site_passes_param in G. destruct g; try discriminate.
+    assert (HC : h_ctx (session cp l ctx_unknown (get_instance cp h)) = h_ctx h).
+    { rewrite session_keeps by assumption. apply get_instance_ctx. exact C. }
+    unfold arg_ctx. cbn [eval_form]. rewrite HC. f_equal.
+    rewrite run_list_eq. apply flat_map_ext_forall.
+    rewrite Forall_forall in *. intros x Hin. rewrite IH; try assumption.
+    + rewrite HC. reflexivity.
+    + rewrite forallb_forall in B. apply B. exact Hin.
 Qed.
 
 (* without an explicit rebinding inside, every call carries the context of the handle the operation
    was started from *)
 Lemma expected_no_rebind : forall n c, has_rebind n = false -> Forall (fun kc => snd kc = c) (expected n c).
 Proof.
-  intros n. induction n as [k f | f inner | l body IH | c' body IH | l f body IH] using node_ind'; intros c NR.
+  intros n. induction n as [k f | f inner | l body IH | c' body IH | l f body IH | l f g body IH] using node_ind'; intros c NR.
   - cbn. repeat constructor.
   - cbn. apply Forall_forall. intros x Hin. apply in_map_iff in Hin. destruct Hin as (y & <- & _). reflexivity.
   - cbn in *. apply Forall_forall. intros x Hin. apply in_flat_map in Hin. destruct Hin as (y & Hy & Hx).
@@ -107,6 +121,12 @@ Proof.
       assert (existsb has_rebind body = true) by (apply existsb_exists; exists y; auto). congruence. }
     rewrite Forall_forall in IH. apply IH; assumption.
   - cbn in NR. discriminate.
+  - cbn in *. constructor; [reflexivity|]. apply Forall_forall. intros x Hin. apply in_flat_map in Hin. destruct Hin as (y & Hy & Hx).
+    rewrite Forall_forall in IH. specialize (IH y Hy c).
+    assert (has_rebind y = false).
+    { destruct (has_rebind y) eqn:E; [|reflexivity]. exfalso.
+      assert (existsb has_rebind body = true) by (apply existsb_exists; exists y; auto). congruence. }
+    rewrite Forall_forall in IH. apply IH; assumption.
   - cbn in *. constructor; [reflexivity|]. apply Forall_forall. intros x Hin. apply in_flat_map in Hin. destruct Hin as (y & Hy & Hx).
     rewrite Forall_forall in IH. specialize (IH y Hy c).
     assert (has_rebind y = false).
